@@ -169,6 +169,9 @@ pub struct Poller {
     /// counter, so that "the waker of the last Pending poll was woken" can be told from "some
     /// older waker was woken".
     pub fresh: bool,
+    /// Run every poll (and every hint sample) on a freshly spawned OS thread: a body is `Send`,
+    /// and a multi-threaded executor does move a task between polls.
+    pub hop_threads: bool,
     /// wake counter of the waker presented at the most recent poll
     pub last: Arc<CountWaker>,
     all: Vec<Arc<CountWaker>>,
@@ -195,6 +198,7 @@ impl Poller {
             wk,
             dead: false,
             fresh: false,
+            hop_threads: false,
         }
     }
 
@@ -221,6 +225,12 @@ impl Poller {
     }
 
     pub fn poll(&mut self) -> Obs {
+        if self.hop_threads {
+            self.hop_threads = false;
+            let o = std::thread::scope(|s| s.spawn(|| self.poll()).join().expect("poll thread"));
+            self.hop_threads = true;
+            return o;
+        }
         if self.fresh {
             let wk = Arc::new(CountWaker(AtomicUsize::new(0)));
             self.waker = Waker::from(wk.clone());
